@@ -483,6 +483,14 @@ func (f *Facts) Decide(t *Term) (bool, bool) {
 			return true, false
 		}
 		if isIntType(a.Type) || isIntType(b.Type) {
+			// len(s) == 0 for a string s is s == ""
+			for _, pr := range [][2]*Term{{a, b}, {b, a}} {
+				if v, ok := pr[1].IntVal(); ok && v == 0 && pr[0].Op == "len" && len(pr[0].Args) == 1 && isStringType(pr[0].Args[0].Type) {
+					if k, r := f.Decide(eqTerm(pr[0].Args[0], strTerm(""))); k {
+						return true, r
+					}
+				}
+			}
 			ia, ib := f.Interval(a), f.Interval(b)
 			if ia.Meet(ib).Empty() {
 				return true, false
@@ -497,6 +505,16 @@ func (f *Facts) Decide(t *Term) (bool, bool) {
 			x, c := a, b
 			if a.IsConst() || a.IsNil() {
 				x, c = b, a
+			}
+			if sv, isStr := c.StrVal(); isStr && sv == "" && c.IsConst() {
+				// x == "" is len(x) == 0
+				iv := f.Interval(&Term{Op: "len", Type: tInt, Args: []*Term{x}})
+				if lo, ok := iv.IsPoint(); ok && lo.Sign() == 0 {
+					return true, true
+				}
+				if iv.Meet(point(0)).Empty() {
+					return true, false
+				}
 			}
 			if c.IsConst() || c.IsNil() {
 				if e, ok := f.eqc[x.Key()]; ok {
@@ -893,4 +911,12 @@ func sameLinear(a, b *Term) bool {
 		}
 	}
 	return true
+}
+
+func isStringType(t types.Type) bool {
+	if t == nil {
+		return false
+	}
+	b, ok := t.Underlying().(*types.Basic)
+	return ok && b.Info()&types.IsString != 0
 }
